@@ -44,9 +44,49 @@ type probeRec struct {
 	released bool
 	dropRule bool // the job's metric relabel rule in force when the probe started
 	queuedAfterRemoval bool
+	ambiguous bool // started while a probe was still owed to a removed incarnation: it may have been that one
+	owed      bool // booked as the probe owed to a removed incarnation
 	outcome  string
 	at       time.Time
 	doneAt   time.Time
+}
+
+// reattribute: which incarnation of a re-discovered target a probe belongs to cannot be seen at the
+// transport. When the current incarnation looks as if it were probed after its success, but that
+// success started while a probe was still owed to the removed incarnation and the probe booked as
+// "owed" afterwards ended without success, the other reading is the legal one: the success was the
+// removed incarnation's queued probe, the later probe the current incarnation's (failed) first one.
+func reattribute(t *c20Target) bool {
+	si := -1
+	for i, r := range t.probes {
+		if r.released && r.outcome == "" {
+			si = i
+		}
+	}
+	if si < 0 || !t.probes[si].ambiguous {
+		return false
+	}
+	succ := t.probes[si]
+	oi := -1
+	for i, o := range t.old {
+		if o.owed && !o.at.Before(succ.at) && oi < 0 {
+			oi = i
+		}
+	}
+	if oi < 0 {
+		return false
+	}
+	o := t.old[oi]
+	if !o.p.Done || (o.released && o.outcome == "") {
+		return false
+	}
+	t.old[oi] = succ
+	succ.owed, succ.ambiguous = true, false
+	o.owed = false
+	t.probes[si] = o
+	sort.SliceStable(t.probes, func(a, b int) bool { return t.probes[a].at.Before(t.probes[b].at) })
+	t.success = false
+	return true
 }
 
 func c20Run(tp *core.Tape, e *core.Env) {
@@ -224,6 +264,12 @@ func c20Bubble(tp *core.Tape, e *core.Env) (hist []string) {
 				e.Violate("probe-before-get", "", "target %s was probed at %s before anybody asked for it", t.addr, p.At.Sub(start))
 			}
 			for _, o := range t.probes {
+				if !o.p.Done && o.ambiguous {
+					// the probe in flight may be the one the removed incarnation had queued: the same
+					// situation as a probe of the removed incarnation that was already in flight
+					e.Violate("concurrent-probes", "class=readded-while-probe-in-flight", "target %s: after it was removed and re-added a probe started at %s while a probe started at %s (possibly the one its previous incarnation had queued) is still in flight", t.addr, p.At.Sub(start), o.at.Sub(start))
+					continue
+				}
 				if !o.p.Done {
 					e.Violate("concurrent-probes", "class="+cls, "target %s: a probe started at %s while the probe started at %s is still in flight", t.addr, p.At.Sub(start), o.at.Sub(start))
 				}
@@ -238,9 +284,12 @@ func c20Bubble(tp *core.Tape, e *core.Env) (hist []string) {
 			if suspicious && t.credits > 0 {
 				// the queued probe of a removed incarnation
 				t.credits--
-				t.old = append(t.old, &probeRec{p: p, at: p.At, dropRule: dropRule})
+				t.old = append(t.old, &probeRec{p: p, at: p.At, dropRule: dropRule, owed: true})
 				logf("probe of %s starts (owed to a removed incarnation)", t.addr)
 				continue
+			}
+			if t.success && reattribute(t) {
+				logf("the earlier success of %s is booked as the probe owed to its removed incarnation", t.addr)
 			}
 			if t.success {
 				e.Violate("probe-after-success", "class="+cls, "target %s was probed again at %s after a successful probe", t.addr, p.At.Sub(start))
@@ -263,7 +312,7 @@ func c20Bubble(tp *core.Tape, e *core.Env) (hist []string) {
 					e.Violate("probe-after-removal", "", "target %s left discovery at %s but was probed %d more times", t.addr, t.removedAt.Sub(start), cnt+1)
 				}
 			}
-			t.probes = append(t.probes, &probeRec{p: p, at: p.At, queuedAfterRemoval: !t.inDisc, dropRule: dropRule})
+			t.probes = append(t.probes, &probeRec{p: p, at: p.At, queuedAfterRemoval: !t.inDisc, dropRule: dropRule, ambiguous: t.credits > 0})
 			logf("probe #%d of %s starts", len(t.probes), t.addr)
 		}
 	}
